@@ -323,3 +323,49 @@ def check(prog, run):
         if bad:
             run.report(r, "%s:%s:default-comparison" % (D, fname), f.where(),
                        "default change condition is wrong on rows (old has, new has, equal, reported): %s" % sorted(set(bad)))
+
+    check_pairing_skips(prog, run, "P9")
+
+
+def check_pairing_skips(prog, run, rule_id):
+    """Only introspection types are left out of the pairwise comparison."""
+    r = run.rule(rule_id, "_iterate_matching_pairs: a user type present in both schemas is always paired — the loop body is executed "
+                          "for the sample names `Foo`, `_Entity`, `X__y` with every test on the name alone folded and "
+                          "is_introspection_type(...) false, and must reach the `yield` of the pair: a skip keyed on the spelling of "
+                          "the name (a leading underscore) hides every edit inside such a type from the diff", 3)
+    f = prog.get_func(D, "_iterate_matching_pairs")
+    run.looked_at(f)
+    loops = [n for n in own_nodes(f.node) if isinstance(n, ast.For) and any(isinstance(x, (ast.Yield, ast.YieldFrom)) for x in ast.walk(n))]
+    if len(loops) != 1:
+        raise AnalysisError("C20.%s: pairing loop of _iterate_matching_pairs not found" % rule_id)
+    lp = loops[0]
+    names = [x.id for x in ast.walk(lp.target) if isinstance(x, ast.Name)]
+    for sample in ("Foo", "_Entity", "X__y"):
+        def decide(t, sample=sample):
+            if "is_introspection_type(" in t:
+                return False
+            try:
+                e = ast.parse(t, mode="eval")
+            except SyntaxError:
+                return None
+            used = {x.id for x in ast.walk(e) if isinstance(x, ast.Name)}
+            cand = [n for n in names if used == {n}]
+            if len(cand) == 1 and not any(isinstance(x, ast.Call) and not (isinstance(x.func, ast.Attribute) and isinstance(x.func.value, ast.Name)
+                                                                        and x.func.value.id == cand[0]) for x in ast.walk(e)):
+                try:
+                    return bool(eval(compile(e, "<test>", "eval"), {"__builtins__": {}}, {cand[0]: sample}))    # a str predicate on a constant
+                except Exception:
+                    return None
+            return None
+        body = boolx.body_function(lp.body)
+        ast.fix_missing_locations(body)
+        try:
+            _ev, exits = boolx.walk_under(body, decide)
+        except ValueError as e:
+            raise AnalysisError("C20.%s: %s" % (rule_id, e))
+        paired = any(any(isinstance(x, (ast.Yield, ast.YieldFrom)) for s_ in env.get(boolx.STMTS, ()) for x in ast.walk(s_)) for _k, _st, env in exits)
+        r.instance("type named %r: paired on some execution: %s" % (sample, paired))
+        if not paired:
+            run.report(r, "%s:_iterate_matching_pairs:user-type-skipped(%s)" % (D, sample), f.where(lp),
+                       "a user type named %r that exists in both schemas is never handed to the pairwise comparison: no change "
+                       "inside it (removed field, removed member, retyped argument) is reported" % sample)
